@@ -45,6 +45,7 @@ class Eval:
         self._final_params = []
         self._cur_env = None
         self.loop_args = None     # optional: [element of the 1st for loop met, of the 2nd, ...] to specialise a loop body on one concrete element
+        self.effect_calls = None  # optional: short callee names whose calls are recorded in self.out as ('emit', name, args) with path conditions and loops
         self.closure_args = None  # optional: [args of the 1st closure met, args of the 2nd, ...] to specialise closures on concrete arguments
 
     # ------------------------------------------------------------------ entry points
@@ -136,10 +137,38 @@ class Eval:
 
     # ------------------------------------------------------------------ blocks / statements
     def block(self, b, env, depth):
-        for s in b.get("stmts", []):
+        return self.seq(b.get("stmts", []), b.get("expr"), env, depth, True)
+
+    def seq(self, stmts, tail, env, depth, value):
+        """statements then the tail expression; `let PAT = INIT else { ELSE };` is `match INIT { PAT => rest of the block, _ => ELSE }`"""
+        for i, s in enumerate(stmts):
+            if s["k"] == "LetStmt" and "else" in s and "init" in s:
+                init = self.expr(s["init"], env, depth)
+                els = s["else"] if s["else"].get("k") else {"k": "Block", **s["else"]}
+                r = pat_vs_term(s["pat"], init)
+                if r is True:
+                    self.bind_pat(s["pat"], init, env)
+                    continue
+                if r is False:
+                    self.effect(els, env, depth)
+                    return ("never",)
+                key = hq.pat_key(s["pat"])
+                e_else = dict(env)
+                self.conds.append((("arm", init, "_"), True))
+                self.effect(els, e_else, depth)
+                self.conds.pop()
+                e_then = dict(env)
+                self.bind_pat(s["pat"], init, e_then)
+                self.conds.append((("arm", init, key), True))
+                v = self.seq(stmts[i + 1:], tail, e_then, depth, value)
+                self.conds.pop()
+                self.merge(env, ("match", init), [(key, e_then), ("_", e_else)])
+                return v
             self.stmt(s, env, depth)
-        if "expr" in b:
-            return self.expr(b["expr"], env, depth)
+        if tail is not None:
+            if value:
+                return self.expr(tail, env, depth)
+            self.effect(tail, env, depth)
         return ("unit",)
 
     def stmt(self, s, env, depth):
@@ -246,10 +275,7 @@ class Eval:
         if k == "Block":
             if "mac_src" in e:
                 return
-            for s in e.get("stmts", []):
-                self.stmt(s, env, depth)
-            if "expr" in e:
-                self.effect(e["expr"], env, depth)
+            self.seq(e.get("stmts", []), e.get("expr"), env, depth, False)
             return
         if k == "Loop":
             self.effect({"k": "Block", **e["body"]}, env, depth)
@@ -582,6 +608,22 @@ class Eval:
             if m == "into":
                 return self.conv(e, recv, depth)
             return recv
+        if m == "for_each" and len(e["args"]) == 1 and strip(e["args"][0]).get("k") == "Closure" and "Iterator::for_each" in (callee_generic(e) or ""):
+            # `it.for_each(|x| BODY)` is `for x in it { BODY }`
+            cl = strip(e["args"][0])
+            elem = self.loop_args.pop(0) if self.loop_args else ("each", recv)
+            for p in cl["params"]:
+                self.bind_pat(p, elem, env)
+            for lid in self.mutated_locals(cl["body"]):
+                if lid in env and not (isinstance(env[lid], tuple) and env[lid][:1] == ("acc",)):
+                    env[lid] = ("acc", env[lid])
+            self.loops.append(recv)
+            saved = self.returns
+            self.returns = []
+            self.effect(cl["body"], env, depth)
+            self.returns = saved
+            self.loops.pop()
+            return ("unit",)
         args = [recv] + [self.expr(a, env, depth) for a in e["args"]]
         self._cur_env = env
         if m in MUTATORS:
@@ -618,6 +660,8 @@ class Eval:
     def named_call(self, e, generic, resolved, args, depth):
         name = short(generic)
         target = resolved or generic
+        if self.effect_calls and name in self.effect_calls:
+            self.out.append((self.full_conds(), tuple(self.loops), ("emit", name, tuple(args))))
         if name in ("Display::fmt", "Precedence::fmt_unary", "Precedence::fmt_binary", "Precedence::fmt_operator", "Debug::fmt"):
             self.out.append((self.full_conds(), tuple(self.loops), ("emit", name, tuple(args[:-1]))))
         # iterator combinators over closures: keep symbolic but apply ctor functions
